@@ -60,7 +60,7 @@ def cursor_discipline(ctx, F):
             else:
                 ctx.bad('PAIR-C07e', f, '%s on a File without positioning it in this function: the cursor is shared with every clone of the handle (Memvid\'s own reads, other readers), '
                         'so the bytes returned depend on what else touched the file' % r.name, line=r.line, sink=r.name, detail='read-at-unknown-cursor')
-    ctx.floor('PAIR-C07e', n, 10, 'std Read calls on File handles that can share their cursor')
+    ctx.floor('PAIR-C07e', n, 4, 'std Read calls on File handles that can share their cursor')
 
 
 INVERSE = {'Plain': (None, None), 'Zstd': ('zstd::encode_all', 'zstd::decode_all')}
